@@ -918,7 +918,8 @@ class Mps(MatrixProduct):
             self.ensure_left_canonical()
 
         # `self` should not be modified during the evolution
-        if imag_time:
+        # a real state stays real in imaginary time only if the Hamiltonian is real
+        if imag_time and not (isinstance(mpo, Mpo) and mpo.is_complex):
             mps = self.copy()
         else:
             mps = self.to_complex()
@@ -1124,7 +1125,8 @@ class Mps(MatrixProduct):
         # `self` should not be modified during the evolution
         # mps: the mps to return
         # environ_mps: mps to construct environ
-        if imag_time:
+        # a real state stays real in imaginary time only if the Hamiltonian is real
+        if imag_time and not mpo.is_complex:
             mps = self.copy()
         else:
             mps = self.to_complex()
@@ -1277,7 +1279,8 @@ class Mps(MatrixProduct):
         # TDVP projector splitting
         # one-site
         if np.iscomplex(evolve_dt):
-            mps = self.copy()
+            # a real state stays real in imaginary time only if the Hamiltonian is real
+            mps = self.to_complex() if mpo.is_complex else self.copy()
             if self.evolve_config.ivp_solver != "krylov":
                 evolve_dt = -evolve_dt.imag
                 # used in calculating derivatives
@@ -1422,7 +1425,8 @@ class Mps(MatrixProduct):
         # TDVP projector splitting
         # two-site
         if np.iscomplex(evolve_dt):
-            mps = self.copy()
+            # a real state stays real in imaginary time only if the Hamiltonian is real
+            mps = self.to_complex() if mpo.is_complex else self.copy()
             if self.evolve_config.ivp_solver != "krylov":
                 evolve_dt = -evolve_dt.imag
                 # used in calculating derivatives
